@@ -179,9 +179,9 @@ def parse_overlay(path):
             flush(); sect = ('end',)
         elif st.startswith('@loop'):
             flush(); sect = ('loop', int(st.split()[1]))
-        elif st.startswith('@before') or st.startswith('@after') or st.startswith('@replace') or st.startswith('@wrap'):
+        elif st.startswith('@before') or st.startswith('@after') or st.startswith('@replace') or st.startswith('@wrap') or st.startswith('@tail'):
             flush()
-            m = re.match(r'@(before|after|wrap)\s+"(.*)"(?:\s+#(\d+))?', st)
+            m = re.match(r'@(before|after|wrap|tail)\s+"(.*)"(?:\s+#(\d+))?', st)
             sect = (m.group(1), m.group(2), int(m.group(3) or 1))
         elif st.startswith('@hoist'):
             # T17 block hoisting, see weave_file. `@hoist "first" "last" name=vbl_x [pin=..]`; section text: `sig ..`, `call ..`,
@@ -546,8 +546,19 @@ class Weaver:
                         if body[a:a + 1] == '|' and k > 0:
                             e = match_brace(s, mask, f['open'] + k) + 1 - f['open']
                             body_f = body_f.replace(body[a:e], '')
+            # `.map(|_| X)` closures that the overlay annotates (T16: `|_i: usize| -> (e: T) ensures .. { X }`) are proved, not T9
+            annot_claimed = set()
+            if spec and spec.get('annot'):
+                for (needle, nth), _text in spec['annot']:
+                    idxs = [m.end() for m in re.finditer(re.escape(needle), body) if code(f['open'] + m.start())]
+                    if nth <= len(idxs):
+                        a = idxs[nth - 1]
+                        while a < len(body) and body[a] in ' \t\n': a += 1
+                        annot_claimed.add(a)
+            t9_sites = [m.start() for m in re.finditer(r'\.map\(\|_\|', body) if code(f['open'] + m.start())]
+            t9_open = [x for x in t9_sites if x + len('.map(') not in annot_claimed]
             if re.search(r'\bf64\b', sig) or re.search(r'\bf64\b', body_f): auto = 'T8'
-            elif re.search(r'\.map\(\|_\|', body): auto = 'T9'
+            elif t9_open: auto = 'T9'
             if auto and disp in ('verify', 'default', 'nodecreases'):
                 self.rec(auto, rel, s, f['start'], qual)
                 disp = 'trusted' if spec else 'default'
@@ -565,10 +576,9 @@ class Weaver:
                 txt = ''.join(f"#[{a}] " for a in attrs)
                 edits.append((f['start'] + len(ind), f['start'] + len(ind), ins(cid0 + ':attr', [], txt)))
             # T9: closures with `_` params are rejected even in external_body bodies
-            if re.search(r'\.map\(\|_\|', body):
-                for m in re.finditer(r'\.map\(\|_\|', body):
-                    p = f['open'] + m.start()
-                    if code(p): edits.append((p, p + len('.map(|_|'), rep('.map(|_i|', '.map(|_|')))
+            for x in t9_open:
+                p = f['open'] + x
+                edits.append((p, p + len('.map(|_|'), rep('.map(|_i|', '.map(|_|')))
             # T11 `x: &mut impl Trait` -> named type parameter (same meaning in Rust; lets contracts name the type)
             if re.search(r':\s*&mut impl [A-Za-z_:]+', sig) and not re.search(r'fn\s+\w+\s*<', sig):
                 names = []
@@ -653,6 +663,25 @@ class Weaver:
                     nid = re.sub(r'\s+', '_', needle)
                     edits.append((p, p, ins(f"{cid0}:wrap[{nid}#{nth}]", props, '{ ' + clause.strip() + ' ')))
                     edits.append((p + len(needle), p + len(needle), ins(f"{cid0}:wrapend[{nid}#{nth}]", [], ' }')))
+                # @tail "Self {" #n : the brace-delimited tail expression `Self { .. }` that starts at the needle (the needle must end
+                # with its opening brace) becomes `let vtail = Self { .. }; <clause> vtail` - two insertions around the untouched
+                # expression (binding a value to a fresh immutable local and returning it is the identity). Lets a proof block name
+                # the value a constructor returns (`vtail`).
+                for (needle, nth), clause in spec.get('tail', []):
+                    idxs = [m.start() for m in re.finditer(re.escape(needle), body) if code(f['open'] + m.start())]
+                    tg = set(props)
+                    for tm in re.finditer(r'(?m)^\s*\[((?:C\d+)(?:,C\d+)*)\]|/\*@p ((?:C\d+)(?:,C\d+)*)\*/', clause):
+                        tg |= set((tm.group(1) or tm.group(2)).split(','))
+                    if nth > len(idxs) or not needle.rstrip().endswith('{'):
+                        self.soft_lost.append({'desc': f"{rel}: tail \"{needle}\" #{nth} in {qual}", 'props': sorted(tg)}); continue
+                    p = f['open'] + idxs[nth - 1]
+                    ob = p + len(needle.rstrip()) - 1
+                    try: cb = match_brace(s, mask, ob)
+                    except ValueError:
+                        self.soft_lost.append({'desc': f"{rel}: tail \"{needle}\" #{nth} in {qual}", 'props': sorted(tg)}); continue
+                    nid = re.sub(r'\s+', '_', needle)
+                    edits.append((p, p, ins(f"{cid0}:tail[{nid}#{nth}]", [], 'let vtail = ')))
+                    edits.append((cb + 1, cb + 1, ins(f"{cid0}:tailend[{nid}#{nth}]", props, ';\n' + ind + '        ' + clause.strip() + '\n' + ind + '        vtail')))
                 # T15 closure conversion. `@closure "let emit_cb = " name=vcl_x`: the closure expression that follows the
                 # needle, `|params| { body }`, is replaced by the call given in the directive (declared replacement whose old
                 # text is the closure, so erasure restores it byte for byte) and the closure text becomes, verbatim and with
